@@ -67,6 +67,23 @@ func runC06(c *Ctx) {
 		return
 	}
 	lastSym := an.LoopSym(last)
+	// the rate limiter starts from the instant this incarnation of the scheduler starts (right after the
+	// initial RA of a (re)initialised interface): its initial value is a clock read made in schedule
+	// itself, not a value handed in from an earlier incarnation (a parameter, a field, a captured variable)
+	for i, pred := range last.Block().Preds {
+		if last.Block().Dominates(pred) {
+			continue
+		}
+		e := c.XO.Of(last.Edges[i])
+		fresh := e.Op == an.OpCall && e.Fn != nil && e.Fn.String() == "time.Now"
+		if fresh {
+			if call, ok := e.V.(*ssa.Call); !ok || call.Parent() != sch {
+				fresh = false
+			}
+		}
+		c.R.Check(fresh, "R-C06-2", fn+":lastMulticast-initial-value", fn, c.pos(sch.Pos()), "initial value "+e.String(),
+			"time.Now() read when schedule() starts", "after a re-initialisation the first periodic RA is sent back to back with the new initial RA (the limiter still holds a time from before the re-dial)")
+	}
 	nM := 0
 	for _, p := range ps {
 		if !p.Cut {
